@@ -392,6 +392,17 @@ func TestVerif_C15_accept_exec(t *testing.T) {
 			if k >= 2 && r.Chance(1, 6) {
 				srcs[1] = srcs[0]
 			}
+			if k >= 2 && r.Chance(1, 3) {
+				// an execute report has one chain report per commit root: the same source chain may occur several times,
+				// not necessarily next to each other ([T, U, T, S], [T, U, T, U, S]) — seeded change C15-6
+				a, b := srcs[0], srcs[1]
+				rest := append([]uint64{}, srcs[2:]...)
+				if r.Bool() {
+					srcs = append([]uint64{a, b, a}, rest...)
+				} else {
+					srcs = append([]uint64{a, b, a, b}, rest...)
+				}
+			}
 			var cls string
 			rem, cls = vC15GenRemote(r, srcs)
 			rep := cciptypes.ExecutePluginReport{}
